@@ -62,6 +62,17 @@ func c17Values(thorough bool) []string {
 			}
 		}
 	}
+	// long values around the sizes at which buffers or fast paths change (4 KiB, 64 KiB), with a hazard at either end and in the middle
+	for _, n := range []int{4095, 4096, 4097, 65535, 65536, 65537} {
+		for _, h := range []string{"'", "\\'", "$(touch CANARY)", "a b", "\n", "`touch CANARY`", "\"", "~", ""} {
+			if n > len(h) {
+				pad := strings.Repeat("a", n-len(h))
+				add(pad + h)
+				add(h + pad)
+				add(pad[:len(pad)/2] + h + pad[len(pad)/2:])
+			}
+		}
+	}
 	core := []string{"'", "\\", "$", "`", " ", "\n", "*", "a", "-", "~", "#", "$(touch CANARY)"}
 	if thorough {
 		core = append(core, "\"", ";", "=", "é")
@@ -358,7 +369,7 @@ func c17Run(c *fw.Ctx) error {
 			cases = append(cases, c17Case{Kind: "shellvar", Keys: []string{"k"}, Value: v})
 		}
 	}
-	c.Res.Bound = fmt.Sprintf("%d @sh values (every byte 0x01-0x7F, every pair (thorough: every triple), all strings of <= 3 atoms over a %d-atom alphabet, length 4 over a core) and %d -o=shell (key path, value) documents, each expanded by dash and bash", len(values), len(c17Atoms), len(cases)-len(values))
+	c.Res.Bound = fmt.Sprintf("%d @sh values (every byte 0x01-0x7F, every pair (thorough: every triple), all strings of <= 3 atoms over a %d-atom alphabet, length 4 over a core, 153 values of 4 KiB and 64 KiB +-1 with a hazard at the start, middle or end) and %d -o=shell (key path, value) documents, each expanded by dash and bash", len(values), len(c17Atoms), len(cases)-len(values))
 	var mine []c17Item
 	for i, cs := range cases {
 		if c.Mine(int64(i)) {
